@@ -254,4 +254,381 @@ theorem C05_refine_insert (d : Doc) (i : Nat) (h : ∀ c ∈ d.kids, c.isNode = 
       simp [List.filter_append, List.filter_cons, hc2, hl]
     rw [C05_refine_insert_at d i p hc, Nat.min_eq_left (by omega)]
 
+/-! ## frame: the other children of the root keep their bytes (every document, every index) -/
+
+theorem convertIndex_isNode (kids : List DNode) (i p : Nat) (h : convertIndex kids i = some p) :
+    ∃ c, kids[p]? = some c ∧ isParaNode c = true ∧ p < kids.length
+      ∧ (kids.filter Node.isNode).length > 0 := by
+  obtain ⟨q, hp, hq, _, c, hc1, hc2⟩ := convertIndexAux_some _ _ _ _ h
+  simp only [Nat.zero_add] at hp; subst hp
+  refine ⟨c, hc1, hc2, hq, ?_⟩
+  have hm : c ∈ kids.filter Node.isNode := by
+    refine List.mem_filter.2 ⟨List.mem_of_getElem? hc1, ?_⟩
+    simp only [isParaNode, Bool.and_eq_true] at hc2
+    exact hc2.1
+  exact List.length_pos_of_mem hm
+
+/-- `insert_paragraph(i)` at an existing position: the new (empty) PARAGRAPH node and one blank
+    line are spliced in front of the i-th paragraph; every old child is the same node, in order.
+    The text gains exactly one `\n` at that place. -/
+theorem C05_frame_insert_at (d : Doc) (i p : Nat) (h : convertIndex d.kids i = some p) :
+    (insertParagraph d i).kids = d.kids.take p ++ [.node .PARAGRAPH [], emptyLine] ++ d.kids.drop p
+    ∧ d.root.text = textList (d.kids.take p) ++ textList (d.kids.drop p)
+    ∧ (insertParagraph d i).root.text =
+        textList (d.kids.take p) ++ '\n' :: textList (d.kids.drop p) := by
+  obtain ⟨c, _, _, _, hpos⟩ := convertIndex_isNode _ _ _ h
+  have hk : (insertParagraph d i).kids =
+      d.kids.take p ++ [.node .PARAGRAPH [], emptyLine] ++ d.kids.drop p := by
+    simp [insertParagraph, insertEmptyParagraph, h, insertAt, hpos]
+  refine ⟨hk, ?_, ?_⟩
+  · simp only [Doc.root, text_node, ← textList_append, List.take_append_drop]
+  · simp only [Doc.root, text_node, hk]
+    simp [emptyLine]
+
+/-- `add_paragraph` (root children all nodes — every parsed or built document): all children stay,
+    the last one possibly with its line terminated; a blank line (unless the document has no
+    children) and the new empty PARAGRAPH node are appended -/
+theorem C05_frame_add (d : Doc) (h : ∀ c ∈ d.kids, c.isNode = true) :
+    (addParagraph d).kids =
+        terminateLastLine d.kids ++ (if d.kids.length > 0 then [emptyLine] else []) ++ [.node .PARAGRAPH []]
+    ∧ (addParagraph d).root.text =
+        d.root.text ++ (if needsNl d.kids then ['\n'] else []) ++ (if d.kids.length > 0 then ['\n'] else []) := by
+  have hpos : (d.kids.filter Node.isNode).length = (terminateLastLine d.kids).length := by
+    rw [filter_isNode_all _ h, terminateLastLine_length_allNodes _ h]
+  have hlen : (d.kids.filter Node.isNode).length = d.kids.length := filter_isNode_all _ h
+  have hk : (addParagraph d).kids =
+      terminateLastLine d.kids ++ (if d.kids.length > 0 then [emptyLine] else []) ++ [.node .PARAGRAPH []] := by
+    simp only [addParagraph, insertEmptyParagraph, insertAt]
+    rw [hpos, List.take_length, List.drop_length, ← hpos, hlen]
+    simp
+  refine ⟨hk, ?_⟩
+  simp only [Doc.root, text_node, hk, textList_append, textList_terminateLastLine]
+  split <;> split <;> simp [emptyLine]
+
+/-- `remove_paragraph(i)`: the i-th PARAGRAPH child goes, and with it the child right behind it if
+    that is a blank/comment-line node; all other children are the same nodes, in order. Beyond the
+    end nothing changes. -/
+theorem C05_frame_remove (d : Doc) (i : Nat) :
+    match convertIndex d.kids i with
+    | none => (removeParagraph d i).kids = d.kids
+    | some p =>
+      (removeParagraph d i).kids =
+        d.kids.take p ++ d.kids.drop (p + 1 +
+          (match d.kids[p + 1]? with
+           | some n => if n.isNode && n.kind == .EMPTY_LINE then 1 else 0
+           | none => 0)) := by
+  cases hc : convertIndex d.kids i with
+  | none => simp [removeParagraph, hc]
+  | some p =>
+    obtain ⟨c, _, _, hlt, _⟩ := convertIndex_isNode _ _ _ hc
+    simp only [removeParagraph, hc]
+    have herase : d.kids.eraseIdx p = d.kids.take p ++ d.kids.drop (p + 1) :=
+      List.eraseIdx_eq_take_drop_succ _ _
+    have hlen : (d.kids.take p).length = p := by simp; omega
+    have hget : (d.kids.eraseIdx p)[p]? = d.kids[p + 1]? := by
+      rw [herase, List.getElem?_append_right (by omega), hlen]
+      simp
+    rw [hget]
+    cases hn : d.kids[p + 1]? with
+    | none => simp [herase]
+    | some n =>
+      simp only
+      split
+      · simp only [herase]
+        rw [List.eraseIdx_append_of_length_le (by omega), hlen]
+        simp [List.eraseIdx_eq_take_drop_succ]
+      · simp [herase]
+
+/-! ### what the old handles read afterwards -/
+
+/-- `insert_paragraph(i)` at an existing position: every handle taken before reads the very same
+    node; the returned handle (the next free number) reads the new empty paragraph -/
+theorem C05_frame_handles_insert_at (d : Doc) (i p : Nat) (h : convertIndex d.kids i = some p) :
+    (∀ j, j < d.handles.length → (insertParagraph d i).para j = d.para j)
+    ∧ (insertParagraph d i).para d.handles.length = some (.node .PARAGRAPH []) := by
+  obtain ⟨c, _, _, hlt, hpos⟩ := convertIndex_isNode _ _ _ h
+  obtain ⟨hk, _, _⟩ := C05_frame_insert_at d i p h
+  have hh : (insertParagraph d i).handles = shiftIns d.handles p 2 ++ [some p] := by
+    simp [insertParagraph, insertEmptyParagraph, h, hpos]
+  have hlen : (d.kids.take p).length = p := by simp; omega
+  constructor
+  · intro j hj
+    unfold Doc.para
+    rw [hh, hk, List.getElem?_append_left (by simpa [shiftIns] using hj)]
+    simp only [shiftIns, List.getElem?_map]
+    cases hjj : d.handles[j]? with
+    | none => simp
+    | some o =>
+      cases o with
+      | none => simp
+      | some s =>
+        simp only [Option.map_some]
+        by_cases hs : s ≥ p
+        · simp only [hs, ↓reduceIte, List.append_assoc]
+          rw [List.getElem?_append_right (by omega), hlen,
+            List.getElem?_append_right (by simp; omega)]
+          simp only [List.length_cons, List.length_nil, List.getElem?_drop]
+          congr 1; omega
+        · simp only [hs, ↓reduceIte, List.append_assoc]
+          rw [List.getElem?_append_left (by omega), List.getElem?_take_of_lt (by omega)]
+  · unfold Doc.para
+    rw [hh, hk, List.getElem?_append_right (by simp [shiftIns])]
+    simp only [shiftIns, List.length_map, Nat.sub_self, List.getElem?_cons_zero, List.append_assoc]
+    rw [List.getElem?_append_right (by omega), hlen]
+    simp
+
+theorem shiftDel_get (hs : List (Option Nat)) (p j s : Nat) (hj : hs[j]? = some (some s)) :
+    (shiftDel hs p)[j]? = some (if s = p then none else if s > p then some (s - 1) else some s) := by
+  simp [shiftDel, hj]
+
+theorem shiftDel_get_ne (hs : List (Option Nat)) (p j s : Nat) (hj : hs[j]? = some (some s)) (hsp : s ≠ p) :
+    (shiftDel hs p)[j]? = some (some (if s > p then s - 1 else s)) := by
+  rw [shiftDel_get hs p j s hj]
+  simp only [hsp, ↓reduceIte]
+  split <;> rfl
+
+theorem shiftDel_get_none (hs : List (Option Nat)) (p j : Nat) (hj : hs[j]? = some none) :
+    (shiftDel hs p)[j]? = some none := by
+  simp [shiftDel, hj]
+
+theorem eraseIdx_get (kids : List DNode) (p s : Nat) (hsp : s ≠ p) :
+    (kids.eraseIdx p)[if s > p then s - 1 else s]? = kids[s]? := by
+  rw [List.getElem?_eraseIdx]
+  by_cases hgt : s > p
+  · have : ¬ (s - 1 < p) := by omega
+    simp only [hgt, ↓reduceIte, this]
+    congr 1; omega
+  · have : s < p := by omega
+    simp [hgt, this]
+
+/-- `remove_paragraph(i)`: the handle of the removed paragraph is dead; every other handle on a
+    paragraph reads the very same node -/
+theorem C05_frame_handles_remove (d : Doc) (i p : Nat) (h : convertIndex d.kids i = some p)
+    (j : Nat) (n : DNode) (hn : d.para j = some n) (hpn : isParaNode n = true) :
+    (removeParagraph d i).para j = if d.handles[j]? = some (some p) then none else some n := by
+  unfold Doc.para at hn
+  cases hjj : d.handles[j]? with
+  | none => rw [hjj] at hn; simp at hn
+  | some o =>
+    cases o with
+    | none => rw [hjj] at hn; simp at hn
+    | some s =>
+      rw [hjj] at hn
+      simp only at hn
+      have hs1 := shiftDel_get d.handles p j s hjj
+      simp only [removeParagraph, h]
+      by_cases hsp : s = p
+      · -- the removed paragraph's own handle
+        subst hsp
+        simp only [↓reduceIte] at hs1 ⊢
+        have hs2 := shiftDel_get_none _ s j hs1
+        cases (d.kids.eraseIdx s)[s]? with
+        | none => simp [Doc.para, hs1]
+        | some m =>
+          simp only
+          by_cases hm : (m.isNode && m.kind == .EMPTY_LINE) = true
+          · simp [hm, Doc.para, hs2]
+          · simp [hm, Doc.para, hs1]
+      · have hne : ¬ (some (some s) = some (some p)) := by simp [hsp]
+        simp only [hne, ↓reduceIte]
+        replace hs1 := shiftDel_get_ne d.handles p j s hjj hsp
+        have hk1 := eraseIdx_get d.kids p s hsp
+        rw [hn] at hk1
+        generalize hs' : (if s > p then s - 1 else s) = s' at hs1 hk1
+        have hread1 : (Doc.para ⟨d.kids.eraseIdx p, shiftDel d.handles p⟩ j) = some n := by
+          simp only [Doc.para]
+          split
+          · rename_i x hx; rw [hs1] at hx; simp at hx; subst hx; exact hk1
+          · rename_i hx; exact absurd hs1 (by intro e; exact hx _ e)
+        cases hnx : (d.kids.eraseIdx p)[p]? with
+        | none => exact hread1
+        | some m =>
+          simp only
+          by_cases hm : (m.isNode && m.kind == .EMPTY_LINE) = true
+          · simp only [hm, ↓reduceIte]
+            have hs'p : s' ≠ p := by
+              intro e; subst e
+              rw [hnx] at hk1; simp at hk1; subst hk1
+              simp only [isParaNode, Bool.and_eq_true, beq_iff_eq] at hpn hm
+              rw [hm.2] at hpn; simp at hpn
+            have hs2 := shiftDel_get_ne (shiftDel d.handles p) p j s' hs1 hs'p
+            have hk2 := eraseIdx_get (d.kids.eraseIdx p) p s' hs'p
+            rw [hk1] at hk2
+            simp only [Doc.para]
+            split
+            · rename_i x hx; rw [hs2] at hx; simp at hx; subst hx; exact hk2
+            · rename_i hx; exact absurd hs2 (by intro e; exact hx _ e)
+          · simp only [hm, Bool.false_eq_true, ↓reduceIte]
+            exact hread1
+
+/-! ## paragraphs stay separated: the printed document re-reads to the list-model paragraphs
+
+  An EMPTY paragraph (just added, no field yet) prints as nothing, so a reader cannot see it:
+  exactly as the oracle of `harness/src/edit.rs` (step (4): `want.filter(|p| !p.is_empty())`), the
+  re-read content is the list-model content without the empty paragraphs. -/
+
+open Spec
+
+theorem kids_allNodes (d0 : DocS) : ∀ c ∈ d0.tree.children, c.isNode = true := by
+  intro c hc
+  rw [← unitsKids_unitsOf] at hc
+  simp only [unitsKids, List.mem_map] at hc
+  obtain ⟨u, _, rfl⟩ := hc
+  exact unit_isNode u
+
+theorem ditems_parsed (d0 : DocS) : ditems d0.tree.children = d0.content := by
+  rw [← docItems_tree d0]; rfl
+
+theorem content_nonEmpty (d0 : DocS) : d0.content.filter nonEmpty = d0.content := by
+  apply List.filter_eq_self.2
+  intro p hp
+  simp only [DocS.content, List.mem_map] at hp
+  obtain ⟨pg, _, rfl⟩ := hp
+  simp [nonEmpty, ParaS.content]
+
+theorem filter_insertIdx_false {α} (p : α → Bool) (x : α) (hx : p x = false) :
+    ∀ (l : List α) (n : Nat), (l.insertIdx n x).filter p = l.filter p
+  | l, 0 => by simp [hx]
+  | [], n + 1 => by simp
+  | a :: l, n + 1 => by
+    simp [List.insertIdx_succ_cons, List.filter_cons, filter_insertIdx_false p x hx l n]
+
+/-- `add_paragraph` on a parsed well-formed document: the printed document is accepted by the
+    strict reader without error; the new paragraph is empty, so the reader sees the old paragraphs -/
+theorem C05_reread_add (d0 : DocS) (hwf : d0.WF) (d : Doc) (hd : d.kids = d0.tree.children) :
+    let d' := addParagraph d
+    ditems d'.kids = d0.content ++ [[]]
+    ∧ ∃ s : DocS, s.WF ∧ s.str = d'.root.text ∧ parse d'.root.text = ⟨s.tree, []⟩
+      ∧ readStrict d'.root.text = .ok s.tree ∧ docItems s.tree = d0.content := by
+  have hlive : ditems (addParagraph d).kids = d0.content ++ [[]] := by
+    rw [C05_refine_add d (by rw [hd]; exact kids_allNodes d0), hd, ditems_parsed]
+  refine ⟨hlive, ?_⟩
+  obtain ⟨s, h1, h2, h3, h4, h5⟩ := C04_reread_history d0 hwf d hd [.addp] (by simp [EditOp.Valid])
+  refine ⟨s, h1, h2, h3, h4, ?_⟩
+  rw [h5]
+  have : docItems (run d [.addp]).root = ditems (addParagraph d).kids := rfl
+  rw [this, hlive, List.filter_append, content_nonEmpty]
+  simp [nonEmpty]
+
+/-- `insert_paragraph(i)`, any `i` (beyond the end it appends) -/
+theorem C05_reread_insert (d0 : DocS) (hwf : d0.WF) (d : Doc) (hd : d.kids = d0.tree.children) (i : Nat) :
+    let d' := insertParagraph d i
+    ditems d'.kids = d0.content.insertIdx (min i d0.content.length) []
+    ∧ ∃ s : DocS, s.WF ∧ s.str = d'.root.text ∧ parse d'.root.text = ⟨s.tree, []⟩
+      ∧ readStrict d'.root.text = .ok s.tree ∧ docItems s.tree = d0.content := by
+  have hlive : ditems (insertParagraph d i).kids = d0.content.insertIdx (min i d0.content.length) [] := by
+    rw [C05_refine_insert d i (by rw [hd]; exact kids_allNodes d0), hd, ditems_parsed]
+  refine ⟨hlive, ?_⟩
+  obtain ⟨s, h1, h2, h3, h4, h5⟩ := C04_reread_history d0 hwf d hd [.insp i] (by simp [EditOp.Valid])
+  refine ⟨s, h1, h2, h3, h4, ?_⟩
+  rw [h5]
+  have : docItems (run d [.insp i]).root = ditems (insertParagraph d i).kids := rfl
+  rw [this, hlive]
+  rw [filter_insertIdx_false nonEmpty [] rfl]
+  exact content_nonEmpty d0
+
+/-- `remove_paragraph(i)`: the remaining paragraphs are still separated — the printed document
+    re-reads, without error, to the paragraph list with the i-th element erased -/
+theorem C05_reread_remove (d0 : DocS) (hwf : d0.WF) (d : Doc) (hd : d.kids = d0.tree.children) (i : Nat) :
+    let d' := removeParagraph d i
+    ∃ s : DocS, s.WF ∧ s.str = d'.root.text ∧ parse d'.root.text = ⟨s.tree, []⟩
+      ∧ readStrict d'.root.text = .ok s.tree ∧ docItems s.tree = d0.content.eraseIdx i := by
+  obtain ⟨s, h1, h2, h3, h4, h5⟩ := C04_reread_history d0 hwf d hd [.rmp i] (by simp [EditOp.Valid])
+  refine ⟨s, h1, h2, h3, h4, ?_⟩
+  rw [h5]
+  have : docItems (run d [.rmp i]).root = ditems (removeParagraph d i).kids := rfl
+  rw [this, C05_refine_remove, hd, ditems_parsed]
+  apply List.filter_eq_self.2
+  intro p hp
+  have := List.mem_of_mem_eraseIdx hp
+  rw [← content_nonEmpty d0] at this
+  exact (List.mem_filter.1 this).2
+
+/-- **whole histories**, paragraph operations interleaved with field edits through any handles:
+    paragraphs never fuse and nothing unreadable is produced — the printed document always re-reads,
+    strictly and without error, to the live paragraphs that have at least one field (in order). -/
+theorem C05_reread_history (d0 : DocS) (hwf : d0.WF) (d : Doc) (hd : d.kids = d0.tree.children)
+    (ops : List EditOp) (hv : ∀ o ∈ ops, o.Valid) :
+    let d' := run d ops
+    ∃ s : DocS, s.WF ∧ s.str = d'.root.text ∧ parse d'.root.text = ⟨s.tree, []⟩
+      ∧ readStrict d'.root.text = .ok s.tree
+      ∧ docItems s.tree = (ditems d'.kids).filter nonEmpty :=
+  C04_reread_history d0 hwf d hd ops hv
+
+/-- **filling the new paragraph**: `add_paragraph`, then `set` through the handle it returned (the
+    next free handle number): the document re-reads to the old paragraphs followed by the new
+    one-field paragraph — separated by a blank line, the previous last line terminated -/
+theorem C05_reread_add_fill (d0 : DocS) (hwf : d0.WF) (d : Doc) (hd : d.kids = d0.tree.children)
+    (k v : Str) (hk : ValidKey k) (hv : ValidValue v) :
+    let d' := (addParagraph d).onPara d.handles.length (fun cs => paraSet cs k v)
+    ditems d'.kids = d0.content ++ [[(k, v)]]
+    ∧ ∃ s : DocS, s.WF ∧ s.str = d'.root.text ∧ parse d'.root.text = ⟨s.tree, []⟩
+      ∧ readStrict d'.root.text = .ok s.tree ∧ docItems s.tree = d0.content ++ [[(k, v)]] := by
+  have hn := kids_allNodes d0
+  rw [← hd] at hn
+  obtain ⟨hk1, _⟩ := C05_frame_add d hn
+  have hlenT : (terminateLastLine d.kids).length = d.kids.length := terminateLastLine_length_allNodes _ hn
+  generalize hsep : (if d.kids.length > 0 then [emptyLine] else ([] : List DNode)) = sep at hk1
+  have hsepP : sep.filter isParaNode = [] := by
+    rw [← hsep]; split <;> simp [emptyLine_not_para]
+  have hseplen : sep.length = (if (d.kids.filter Node.isNode).length > 0 then [emptyLine] else ([] : List DNode)).length := by
+    rw [← hsep, filter_isNode_all _ hn]
+  -- the new handle and the slot it points to
+  have hh : (addParagraph d).handles[d.handles.length]? = some (some (d.kids.length + sep.length)) := by
+    simp only [addParagraph, insertEmptyParagraph, shiftIns]
+    rw [List.getElem?_append_right (by simp)]
+    simp [filter_isNode_all _ hn, hseplen]
+  have hslot : (addParagraph d).kids[d.kids.length + sep.length]? = some (.node .PARAGRAPH []) := by
+    rw [hk1, List.getElem?_append_right (by simp [hlenT])]
+    simp [hlenT]
+  have htake : (addParagraph d).kids.take (d.kids.length + sep.length) = terminateLastLine d.kids ++ sep := by
+    rw [hk1, List.take_append_of_le_length (by simp [hlenT])]
+    rw [List.take_of_length_le (by simp [hlenT])]
+  have hdrop : (addParagraph d).kids.drop (d.kids.length + sep.length + 1) = [] := by
+    rw [hk1]; apply List.drop_of_length_le; simp [hlenT]; omega
+  have hlive : ditems ((addParagraph d).onPara d.handles.length (fun cs => paraSet cs k v)).kids =
+      d0.content ++ [[(k, v)]] := by
+    have := content_onPara (addParagraph d) _ _ [] (fun cs => paraSet cs k v) hh hslot
+    rw [htake, hdrop, C04_refine_set] at this
+    have h1 : docItems (.node .ROOT (terminateLastLine d.kids ++ sep)) = d0.content := by
+      have : docItems (.node .ROOT (terminateLastLine d.kids ++ sep)) =
+          ditems (terminateLastLine d.kids) ++ ditems sep := by
+        simp [ditems_eq, docItems, paragraphs, Node.children, List.filter_append]; rfl
+      rw [this, ditems_terminateLastLine, hd, ditems_parsed]
+      simp [ditems_eq, hsepP]
+    rw [h1] at this
+    simpa [ditems, pitems_eq, ListSpec.set, docItems, paragraphs, Node.children] using this
+  refine ⟨hlive, ?_⟩
+  obtain ⟨s, h1, h2, h3, h4, h5⟩ := C04_reread_history d0 hwf d hd [.addp, .set d.handles.length k v]
+    (by intro o ho; simp at ho; rcases ho with rfl | rfl <;> simp [EditOp.Valid, hk, hv])
+  refine ⟨s, h1, h2, h3, h4, ?_⟩
+  rw [h5]
+  have : docItems (run d [.addp, .set d.handles.length k v]).root =
+      ditems ((addParagraph d).onPara d.handles.length (fun cs => paraSet cs k v)).kids := rfl
+  rw [this, hlive, List.filter_append, content_nonEmpty]
+  simp [nonEmpty]
+
+/-! ### non-vacuity -/
+
+example : C03.exDoc.WF := by decide
+
+/-- the start document of the examples: the C03 example, handles on its two paragraphs -/
+def exStart : Doc := ⟨C03.exDoc.tree.children, [some 2, some 5]⟩
+
+example : exStart.kids = C03.exDoc.tree.children := rfl
+example : convertIndex exStart.kids 1 = some 5 := by decide
+example : ∀ c ∈ exStart.kids, c.isNode = true := by decide
+example : ∃ n, exStart.para 1 = some n ∧ isParaNode n = true := ⟨_, rfl, rfl⟩
+example : ∀ o ∈ C04.exOps, o.Valid := by decide
+example : ValidKey "New".toList ∧ ValidValue "v1\nv2".toList := by decide
+
+/-- inserting in front of paragraph 1 and removing paragraph 0, computed (the frame theorems give
+    the same): one `\n` more at the insertion point; the removed paragraph takes the blank line
+    behind it along, the comment line written between the paragraphs stays -/
+example : (insertParagraph exStart 1).root.text =
+    "# lead\n\nSource: foo\n :x é\n# c\nA:\nA:\tb: #c\n# trailing\n\n# between\n\nPackage: bar".toList := by
+  decide +kernel
+example : (removeParagraph exStart 0).root.text = "# lead\n\n# between\nPackage: bar".toList := by
+  decide +kernel
+
 end Deb822Verif.Props.C05
